@@ -275,13 +275,15 @@ func zzH_C15() {
 		}
 	}
 	step()
-	if busy != nil {
+	closeEarly := busy != nil && vChoose("close-while-busy", 2) == 1
+	if busy != nil && !closeEarly {
 		busy.deliver(zzResponse(req.Seq, "", zzReplyFor(req.Args)))
 	}
 	vQuiesce()
-	if busy != nil {
+	if busy != nil && !closeEarly {
 		vAssert(returned && err == nil && vEqBytes(reply, zzReplyFor(arg)), "long-call-succeeds")
 	}
+	// Transport.Close closes every pooled connection, busy or not (a call still in flight is cut)
 	t.Close()
 	vAtEnd(func() {
 		vAssert(returned, "holder-returns")
